@@ -5,7 +5,7 @@ Render -> parse round trips, every sub-space enumerated completely against the r
   fixed      parse_fixed_table          headers x gaps x cells x rows x (indent, rstrip, junk+heading_ignore,
                                         footer+trailing_ignore, header_substitute)
   delim      parse_delimited_table      delim x header_delim x max_splits x strip/pad x raw_line_key x rows x env
-  kv         split_kv_pairs             documents over 10 sharp line symbols x every option combination
+  kv         split_kv_pairs             documents over 13 sharp line symbols (incl. empty values) x every option combination
   active     get_active_lines           documents over 9 line symbols x comment_char
   unsplit    unsplit_lines              logical lines split into pieces x cont_char x keep_cont_char
   optlist    optlist_to_dict            option sequences x opt_sep x kv_sep x strip_quotes
@@ -449,7 +449,9 @@ def delim_cases(headers, delim, tier):
                                 yield case
 
 
-KV_LINES = ["k = v", "k=v=w", " k : v ", "k = v2", "# k = old", "j = u # c", "", "   ", "nosep", "k:a=b"]
+KV_LINES = ["k = v", "k=v=w", " k : v ", "k = v2", "# k = old", "j = u # c", "", "   ", "nosep", "k:a=b",
+            # empty values: the separator is present, so the pair (k, "") is data and overrides an earlier k
+            "k =", "k=", "k =  # c"]
 KV_BLANK = ("", "   ")
 ACTIVE_LINES = [" x ", "x # c", "# c", "", "  ", "x#c#d", " # c", "x ; y", "a//b"]
 
@@ -898,7 +900,7 @@ TECHNIQUE = ("bounded exhaustive render->parse enumeration of tables, key/value 
              "against a second formulation and stdlib configparser)")
 LEVEL_TEXT = ("Every document of each stated finite sub-space (fixed-width tables up to 2/3 columns with every ordered header "
               "choice incl. substring-related headers, delimited tables over every option combination, key/value documents up "
-              "to 4/5 lines over 10 sharp line symbols, INI documents with up to 2 sections + DEFAULT, duplicate and "
+              "to 4/5 lines over 13 sharp line symbols, INI documents with up to 2 sections + DEFAULT, duplicate and "
               "case-variant options, fillers at every position, and keyword searches over every matcher suffix) is rendered "
               "and parsed by the real code; exploration is exhaustive within the bound, so the claim is 'no counterexample "
               "within the bound', not a proof for all documents.")
